@@ -532,6 +532,314 @@ def run_budget(inp):
             "meta": {"lost": lost, "budget": len(rec) * 2 * L * thr}}
 
 
+# ----------------------------------------------------------------------------------------------- xe05: conservation tie
+# Extension xe05 (Props/C05.lean C05.5-C05.19): run the REAL single_site_tdvp / two_site_tdvp / local_dynamic_tdvp with
+# update_site / update_bond / split_mps_tensor / _build_dense_effective_hamiltonian wrapped (on top of the Tracer spies) and,
+# before and after every primitive, evaluate <psi|psi> and <psi|H|psi> of the actual MPS against the actual MPO (dense).
+#   tied part   : the primitive list (same driver requests as the trace tie)
+#   oracles     : per-primitive drift of norm and energy (no truncation), drop = discarded weight <= threshold (splits),
+#                 dense H_eff Hermitian (hypothesis of herm_flow_*), local quadratic form = global value
+#                 (energy_is_local_site / energy_is_local_bond / norm_is_local on the environments the code built),
+#                 primitive result = scipy expm(-i t H_eff) x (hypothesis `hstep` of site/bond_update_conserves_*),
+#                 mixed canonical form around the updated tensor (hypothesis `ctr` of one_site_sweep_conserves)
+# tolerances: >= 100x the largest clean-tree deviation — observed maxima are quoted next to each.
+CONS_TOL = {
+    # observed = maximum over 6260 clean-tree cases (probe seeds 0..15, all three integrators, dt up to 2.5)
+    "norm": 5e-11,      # |N_after - N_before| per exact primitive; observed 1.6e-13
+    "energy": 5e-11,    # |E_after - E_before| / (1 + |H|) per exact primitive; observed 6.5e-14
+    "herm": 1e-11,      # max|H_eff - H_eff^dagger| / (1 + max|H_eff|); observed 5.5e-14
+    "local": 5e-12,     # |x^dagger H_eff x - <psi|H|psi>| / (1 + |H|), |x^dagger x - <psi|psi>|; observed 3.7e-15
+    "flow": 1e-9,       # |result - expm(-i t H_eff) x| / |x| where judged (|t| * |H_eff| <= FLOW_TH_MAX); observed 2.5e-13
+    "canon": 1e-11,     # isometry defect of the neighbours of the updated tensor; observed 2.7e-15
+    "split": 5e-12,     # |(N_before - N_after) - sum of discarded s^2| / N_before; observed 3.8e-15
+}
+
+
+def dense_of(blocks):
+    """list of (phys, left, right) tensors (a merged pair is one tensor with the composite physical index) -> dense vector,
+    first site most significant (the convention of MPO.to_matrix)"""
+    v = blocks[0][:, 0, :]
+    for t in blocks[1:]:
+        v = np.tensordot(v, t, axes=(v.ndim - 1, 1))
+    return v.reshape(-1)
+
+
+def iso_defect(left_tensors, right_tensors):
+    d = 0.0
+    for t in left_tensors:
+        m = t.reshape(t.shape[0] * t.shape[1], t.shape[2])
+        d = max(d, float(np.max(np.abs(m.conj().T @ m - np.eye(m.shape[1])))))
+    for t in right_tensors:
+        m = t.transpose(1, 0, 2).reshape(t.shape[1], t.shape[0] * t.shape[2])
+        d = max(d, float(np.max(np.abs(m @ m.conj().T - np.eye(m.shape[0])))))
+    return d
+
+
+FLOW_TH_MAX = 8.0  # |t|*|H_eff| up to which 25 Lanczos vectors reproduce expm to 1e-13 (observed 4e-12 in [8,10), 8e-11 in [10,12))
+
+
+class ConserveSpy:
+    """second layer of wrappers around the Tracer spies of tdvp.py; records one dict per primitive"""
+
+    DENSE_MAX = 1024
+
+    def __init__(self, mps, hmat, tracer):
+        self.mps, self.hmat, self.tr = mps, hmat, tracer
+        self.hn = float(np.linalg.norm(hmat, 2))
+        self.recs = []
+        self.heff = []          # dense matrices the code itself built (via _build_dense_effective_hamiltonian)
+        self.saved = {}
+
+    def quad(self, blocks):
+        v = dense_of(blocks)
+        return float(np.vdot(v, v).real), float(np.vdot(v, self.hmat @ v).real)
+
+    def local(self, rec, hmats_seen, builder, args, x, res, dt):
+        """H_eff the code used (or, above the dense threshold, the one its own builder gives for the same environments)"""
+        n = x.size
+        h = hmats_seen[-1] if hmats_seen else (builder(*args) if n <= self.DENSE_MAX else None)
+        rec["code_built_heff"] = bool(hmats_seen)
+        if h is None or h.shape != (n, n):
+            rec["heff_shape_ok"] = h is None
+            return
+        rec["heff_shape_ok"] = True
+        rec["herm"] = float(np.max(np.abs(h - h.conj().T))) / (1.0 + float(np.max(np.abs(h))))
+        xf = x.reshape(-1)
+        rec["locE"] = float(np.vdot(xf, h @ xf).real)
+        rec["locN"] = float(np.vdot(xf, xf).real)
+        hnorm = float(np.linalg.norm(h, 2))
+        rec["tH"] = abs(float(dt)) * hnorm
+        if rec["tH"] <= FLOW_TH_MAX:
+            ref = EXPM(-1j * float(dt) * h) @ xf
+            rec["flow"] = float(np.linalg.norm(res.reshape(-1) - ref)) / max(float(np.linalg.norm(xf)), 1e-300)
+
+    def install(self):
+        sp, tr, mps = self, self.tr, self.mps
+        inner = {n: getattr(tdvp_mod, n) for n in ("update_site", "update_bond", "split_mps_tensor")}
+        self.saved["_build_dense_effective_hamiltonian"] = tdvp_mod._build_dense_effective_hamiltonian
+        build0 = tdvp_mod._build_dense_effective_hamiltonian
+
+        def _build(projector, proj_args, tensor_shape):
+            h = build0(projector, proj_args, tensor_shape)
+            sp.heff.append(h)
+            return h
+
+        def update_site(left_env, right_env, op, ket, dt):
+            tens = list(mps.tensors)
+            k0 = len(sp.heff)
+            res = inner["update_site"](left_env, right_env, op, ket, dt)
+            ev = tr.events[-1]
+            rec = {"kind": ev[0], "pos": ev[1], "dt": float(dt)}
+            sp.recs.append(rec)
+            if not isinstance(ev[1], int):
+                return res
+            i, w = ev[1], (1 if ev[0] == "site" else 2)
+            rec["Nb"], rec["Eb"] = sp.quad(tens[:i] + [ket] + tens[i + w:])
+            rec["Na"], rec["Ea"] = sp.quad(tens[:i] + [res] + tens[i + w:])
+            rec["canon"] = iso_defect(tens[:i], tens[i + w:])
+            sp.local(rec, sp.heff[k0:], tdvp_mod.build_dense_heff_site, (left_env, right_env, op), ket, res, dt)
+            return res
+
+        def update_bond(left_env, right_env, bond_tensor, dt):
+            tens = list(mps.tensors)
+            k0 = len(sp.heff)
+            res = inner["update_bond"](left_env, right_env, bond_tensor, dt)
+            ev = tr.events[-1]
+            rec = {"kind": "bond", "pos": ev[1], "dt": float(dt)}
+            sp.recs.append(rec)
+            if not isinstance(ev[1], int):
+                return res
+            b = ev[1]
+
+            def with_c(c):
+                return tens[:b + 1] + [np.einsum("lx,pxr->plr", c, tens[b + 1])] + tens[b + 2:]
+
+            rec["Nb"], rec["Eb"] = sp.quad(with_c(bond_tensor))
+            rec["Na"], rec["Ea"] = sp.quad(with_c(res))
+            rec["canon"] = iso_defect(tens[:b + 1], tens[b + 1:])
+            sp.local(rec, sp.heff[k0:], tdvp_mod.build_dense_heff_bond, (left_env, right_env), bond_tensor, res, dt)
+            return res
+
+        def split_mps_tensor(tensor, svd_distribution, sim_params, physical_dimensions, *, dynamic):
+            tens = list(mps.tensors)
+            p = tr.result_pair.get(id(tensor))
+            a, b = inner["split_mps_tensor"](tensor, svd_distribution, sim_params, physical_dimensions, dynamic=dynamic)
+            rec = {"kind": "split", "pos": p if p is not None else "?", "dist": svd_distribution}
+            sp.recs.append(rec)
+            if p is None:
+                return a, b
+            rec["Nb"], rec["Eb"] = sp.quad(tens[:p] + [tensor] + tens[p + 2:])
+            rec["Na"], rec["Ea"] = sp.quad(tens[:p] + [a, b] + tens[p + 2:])
+            d0, d1 = physical_dimensions
+            th = tensor.reshape(d0, d1, tensor.shape[1], tensor.shape[2]).transpose(0, 2, 1, 3)
+            s = np.linalg.svd(th.reshape(d0 * tensor.shape[1], d1 * tensor.shape[2]), compute_uv=False)
+            keep = a.shape[2]
+            rec["keep"], rec["nsv"] = int(keep), int(len(s))
+            rec["tail"] = float(np.sum(s[keep:] ** 2))
+            rec["capped"] = bool(keep >= sim_params.max_bond_dim and keep < len(s))
+            rec["thr"] = float(sim_params.threshold)
+            # the factor that does NOT carry the singular values is an isometry (what keeps the canonical form)
+            rec["canon"] = iso_defect([a], []) if svd_distribution == "right" else iso_defect([], [b])
+            return a, b
+
+        tdvp_mod._build_dense_effective_hamiltonian = _build
+        tdvp_mod.update_site, tdvp_mod.update_bond, tdvp_mod.split_mps_tensor = update_site, update_bond, split_mps_tensor
+
+    def restore(self):
+        for n, f in self.saved.items():
+            setattr(tdvp_mod, n, f)
+
+
+def judge_conserve(recs, hn):
+    """per-primitive oracles; returns (problems, worst) — `worst` is what the tolerances were calibrated on"""
+    probs, worst = [], {k: 0.0 for k in CONS_TOL}
+    nsplit = 0
+    for k, r in enumerate(recs):
+        tag = f"primitive #{k} {r['kind']}@{r['pos']}" + (f" dt={r['dt']:+.4g}" if "dt" in r else "")
+        if not isinstance(r["pos"], int):
+            continue  # the trace tie reports unidentified calls
+        if r["kind"] == "split":
+            nsplit += 1
+            drop = r["Nb"] - r["Na"]
+            worst["split"] = max(worst["split"], abs(drop - r["tail"]) / max(r["Nb"], 1e-300))
+            if abs(drop - r["tail"]) > CONS_TOL["split"] * max(r["Nb"], 1.0):
+                probs.append(f"{tag}: norm drop {drop:.3e} != discarded weight {r['tail']:.3e} (kept {r['keep']}/{r['nsv']})")
+            if not r["capped"] and r["tail"] > r["thr"] * (1 + 1e-9) + 1e-300:
+                probs.append(f"{tag}: discarded weight {r['tail']:.3e} > threshold {r['thr']:.1e} although the cap did not bind")
+            if drop < -CONS_TOL["split"] * max(r["Nb"], 1.0):
+                probs.append(f"{tag}: the split INCREASED the norm by {-drop:.3e}")
+            ebound = hn * (2 * np.sqrt(max(r["Nb"], 0) * max(r["tail"], 0)) + r["tail"]) + CONS_TOL["energy"] * (1 + hn)
+            if abs(r["Ea"] - r["Eb"]) > ebound:
+                probs.append(f"{tag}: energy moved by {abs(r['Ea'] - r['Eb']):.3e} > |H|(2 sqrt(N w)+w) = {ebound:.3e}")
+            worst["canon"] = max(worst["canon"], r["canon"])
+            if r["canon"] > CONS_TOL["canon"]:
+                probs.append(f"{tag}: the factor without the singular values is not an isometry (defect {r['canon']:.2e})")
+            continue
+        dn, de = abs(r["Na"] - r["Nb"]), abs(r["Ea"] - r["Eb"]) / (1 + hn)
+        worst["norm"], worst["energy"], worst["canon"] = max(worst["norm"], dn), max(worst["energy"], de), max(worst["canon"], r["canon"])
+        if dn > CONS_TOL["norm"] * max(r["Nb"], 1.0):
+            probs.append(f"{tag}: <psi|psi> {r['Nb']:.12f} -> {r['Na']:.12f} (drift {dn:.2e})")
+        if de > CONS_TOL["energy"]:
+            probs.append(f"{tag}: <psi|H|psi> {r['Eb']:.12f} -> {r['Ea']:.12f} (drift {de * (1 + hn):.2e}, |H|={hn:.2f})")
+        if r["canon"] > CONS_TOL["canon"]:
+            probs.append(f"{tag}: neighbours of the updated tensor are not isometries (defect {r['canon']:.2e}): not the orthogonality centre")
+        if not r.get("heff_shape_ok", True):
+            probs.append(f"{tag}: the dense H_eff built by the code is not square of the local dimension")
+        if "herm" in r:
+            worst["herm"] = max(worst["herm"], r["herm"])
+            if r["herm"] > CONS_TOL["herm"]:
+                probs.append(f"{tag}: dense H_eff not Hermitian (relative defect {r['herm']:.2e})")
+            le, ln = abs(r["locE"] - r["Eb"]) / (1 + hn), abs(r["locN"] - r["Nb"])
+            worst["local"] = max(worst["local"], le, ln)
+            if le > CONS_TOL["local"] * max(r["Nb"], 1.0):
+                probs.append(f"{tag}: local energy x^H H_eff x = {r['locE']:.12f} but <psi|H|psi> = {r['Eb']:.12f}")
+            if ln > CONS_TOL["local"] * max(r["Nb"], 1.0):
+                probs.append(f"{tag}: local norm x^H x = {r['locN']:.12f} but <psi|psi> = {r['Nb']:.12f}")
+            if "flow" in r:
+                worst["flow"] = max(worst["flow"], r["flow"])
+                if r["flow"] > CONS_TOL["flow"]:
+                    probs.append(f"{tag}: result differs from expm(-i t H_eff) x by {r['flow']:.2e} (t|H_eff| = {r['tH']:.2f})")
+    return probs, worst, nsplit
+
+
+def asymmetric_pauli(rng, L):
+    """from_pauli_sum Hamiltonian with site-dependent, mirror-asymmetric fields and couplings (every bond different)"""
+    terms = []
+    for i in range(L):
+        terms.append((rng.uniform(0.2, 1.0) * (1 + 0.37 * i), f"{rng.choice('XYZ')}{i}"))
+        if rng.random() < 0.5:
+            terms.append((rng.uniform(-1, 1), f"{rng.choice('XYZ')}{i}"))
+    for i in range(L - 1):
+        terms.append((rng.uniform(0.3, 1.0) * (1 if i % 2 else -1) * (1 + 0.21 * i), f"{rng.choice('XYZ')}{i} {rng.choice('XYZ')}{i + 1}"))
+        if rng.random() < 0.6:
+            terms.append((rng.uniform(-1, 1), f"{rng.choice('XYZ')}{i} {rng.choice('XYZ')}{i + 1}"))
+    if L >= 3 and rng.random() < 0.3:
+        terms.append((rng.uniform(-0.7, 0.7), f"{rng.choice('XYZ')}0 {rng.choice('XYZ')}2"))  # one longer-range term
+    h = MPO()
+    h.from_pauli_sum(terms=terms, length=L)
+    return h
+
+
+def run_conserve(inp):
+    rng = random.Random(inp["sub"])
+    nprng = np.random.default_rng(inp["sub"])
+    fn = inp["fn"]
+    L = inp.get("L") or rng.choice([2, 3, 3, 4, 4, 5, 5, 6])
+    digital = bool(inp.get("digital", rng.random() < 0.15))
+    hk = inp.get("ham") or rng.choice(["asym", "asym", "asym", "pauli", "ising", "heis"])
+    ham = asymmetric_pauli(rng, L) if hk == "asym" else random_hamiltonian(rng, L, hk)[1]
+    hmat = ham.to_matrix()
+    dt = inp.get("dt") or rng.choice([0.01, 0.05, 0.1, 0.2, 0.4, 0.8, 1.5, 2.5])
+    dmax = rng.choice([2, 3, 4, 8])
+    if fn == "single":
+        cap, thr = 64, 1e-12
+    elif fn == "two":
+        cap = inp.get("cap") or rng.choice([2, 3, 4, 8, 64])
+        thr = inp.get("thr") or rng.choice([1e-15, 1e-15, 1e-9, 1e-6, 1e-4, 1e-3])
+    else:
+        cap = inp.get("cap") or rng.choice([1, 2, 2, 3, 4, 4, 8, 64])
+        thr = inp.get("thr") or rng.choice([1e-15, 1e-15, 1e-9, 1e-6, 1e-4])
+    mps = random_mps(rng, nprng, L, dmax)   # normalised, orthogonality centre at site 0 (MPS.normalize("B"))
+    if digital:
+        sp = StrongSimParams([Observable(Z(), 0)], num_traj=1, max_bond_dim=cap, min_bond_dim=rng.choice([1, 2]), threshold=thr,
+                             show_progress=False)
+        unit = lambda: 1.0  # noqa: E731
+    else:
+        sp = analog_params(dt, cap, thr, mn=rng.choice([1, 2]))
+        unit = lambda: sp.dt  # noqa: E731
+    bonds_before = [t.shape[2] for t in mps.tensors[:-1]]
+    dummy_right, dummy_left = mps.tensors[-1].shape[2], mps.tensors[0].shape[1]
+    v0 = dense_of(list(mps.tensors))
+    n0, e0 = float(np.vdot(v0, v0).real), float(np.vdot(v0, hmat @ v0).real)
+    tr = Tracer(ham, unit)
+    spy = ConserveSpy(mps, hmat, tr)
+    exc = None
+    try:
+        tr.install(tdvp_mod, TDVP_NAMES)
+        spy.install()
+        try:
+            {"single": tdvp_mod.single_site_tdvp, "two": tdvp_mod.two_site_tdvp, "ldtdvp": tdvp_mod.local_dynamic_tdvp}[fn](mps, ham, sp)
+        except Exception as e:  # noqa: BLE001
+            exc = f"{type(e).__name__}: {e}"
+    finally:
+        tr.restore()
+        spy.restore()
+    d = 1 if digital else 0
+    impl = "err" if exc else ops_text(tr.events)
+    if fn == "ldtdvp":
+        sd = seen_dims(tr.events, L, dummy_right, dummy_left, digital)
+        if sd is None:
+            req, impl = f"ldtdvp {L} {cap} {d} | {' '.join(['0'] * L)} | {' '.join(['0'] * L)}", impl + " unsegmentable"
+        else:
+            req = f"ldtdvp {L} {cap} {d} | {' '.join(map(str, sd[0]))} | {'' if digital else ' '.join(map(str, sd[1]))}"
+    else:
+        req = f"{fn} {L} {d}"
+    probs, worst, nsplit = judge_conserve(spy.recs, spy.hn)
+    if exc:
+        probs.append(f"{fn} raised {exc}")
+    # the whole call: exact for the one-site integrator, within the split budget otherwise
+    v1 = dense_of(list(mps.tensors))
+    n1, e1 = float(np.vdot(v1, v1).real), float(np.vdot(v1, hmat @ v1).real)
+    tails = sum(r["tail"] for r in spy.recs if r["kind"] == "split" and "tail" in r)
+    nprim = len(spy.recs)
+    if not exc:
+        if abs((n0 - n1) - tails) > CONS_TOL["norm"] * max(nprim, 1):
+            probs.append(f"whole call: <psi|psi> {n0:.12f} -> {n1:.12f}, but the splits discarded {tails:.3e} in total")
+        ebound = spy.hn * sum(2 * np.sqrt(max(r["Nb"], 0) * r["tail"]) + r["tail"] for r in spy.recs if r["kind"] == "split" and "tail" in r)
+        if abs(e1 - e0) > ebound + CONS_TOL["energy"] * (1 + spy.hn) * max(nprim, 1):
+            probs.append(f"whole call: <psi|H|psi> {e0:.12f} -> {e1:.12f} (allowed {ebound:.3e} from {nsplit} splits)")
+    nherm = sum(1 for r in spy.recs if "herm" in r)
+    nflow = sum(1 for r in spy.recs if "flow" in r)
+    detail = "; ".join(probs[:6]) or (f"{nprim} primitives ({nsplit} splits, discarded {tails:.1e}), H_eff checked {nherm}, flow checked {nflow}; worst " +
+                                      " ".join(f"{k}={v:.1e}" for k, v in worst.items()))
+    sig = f"cons:{fn}:{L}:{d}:{hk}:{dt}:{cap}:{thr}:{bonds_before}"
+    return {"req": req, "impl": impl, "oracle": {"ok": not probs, "detail": detail}, "kind": "conserve-" + fn, "sig": sig,
+            "nontrivial": bool(nherm > 0 and (fn == "single" or nsplit > 0)),
+            "meta": {"worst": worst, "nprim": nprim, "nsplit": nsplit, "tails": tails, "dt": dt, "thr": thr, "cap": cap, "ham": hk,
+                     "dN": n1 - n0, "dE": e1 - e0, "hn": spy.hn, "nflow": nflow,
+                     "max_tH": max([r.get("tH", 0.0) for r in spy.recs] or [0.0])}}
+
+
 def gen(rng, tier):
     n_trace = {"quick": 300, "thorough": 3000, "search": 60}.get(tier, 300)
     n_dyn = {"quick": 40, "thorough": 400, "search": 60}.get(tier, 40)
@@ -547,6 +855,12 @@ def gen(rng, tier):
                "state": rng.choice(["x+", "Neel", "wall"]), "sub": rng.randrange(1 << 30)}
     for _ in range({"quick": 6, "thorough": 60, "search": 20}.get(tier, 6)):
         yield {"kind": "budget", "sub": rng.randrange(1 << 30)}
+    # xe05: per-primitive conservation of the real sweeps (every small length once per integrator, then random)
+    for L in (2, 3, 4, 5, 6):
+        for fn in ("single", "two", "ldtdvp"):
+            yield {"kind": "conserve", "fn": fn, "L": L, "digital": False, "ham": "asym", "sub": rng.randrange(1 << 30)}
+    for k in range({"quick": 150, "thorough": 1500, "search": 150}.get(tier, 150)):
+        yield {"kind": "conserve", "fn": ("single", "two", "ldtdvp")[k % 3], "sub": rng.randrange(1 << 30)}
     for L in (2, 3, 4, 5):  # every small length with caps that bite everywhere / nowhere
         for cap in (1, 2, 64):
             yield {"kind": "trace", "fn": "ldtdvp", "L": L, "cap": cap, "digital": False, "sub": rng.randrange(1 << 30)}
@@ -560,6 +874,8 @@ def gen(rng, tier):
 def run(inp):
     if inp["kind"] == "trace":
         return run_trace(inp)
+    if inp["kind"] == "conserve":  # xe05
+        return run_conserve(inp)
     if inp["kind"] not in ("dynamics", "budget"):
         raise ValueError(inp["kind"])
     try:
@@ -581,9 +897,17 @@ if __name__ == "__main__":
             rule="trace: seeded chains L=1..8 x random valid bond dimensions x caps 1..64 x analog/digital x "
                  "{local_dynamic_tdvp, single_site_tdvp, two_site_tdvp, bug}; distinct = distinct (function, L, mode, "
                  "#site updates, #pair updates, cap, bonds) signatures; non-trivial (ldtdvp, L>2) = both branches taken. "
-                 "dynamics: simulator.run noise-free on Ising/Heisenberg/random Pauli-sum chains L=4..7, built-in states",
+                 "dynamics: simulator.run noise-free on Ising/Heisenberg/random Pauli-sum chains L=4..7, built-in states"
+                 + ". conserve (xe05): the real single_site_tdvp / two_site_tdvp / local_dynamic_tdvp on L=2..6, random right-canonical "
+                 "MPS, asymmetric from_pauli_sum / Ising / Heisenberg MPOs, dt 0.01..2.5, thresholds 1e-15..1e-3, caps 1..64, with every "
+                 "update_site / update_bond / split_mps_tensor wrapped: primitive list tied to the model; per primitive <psi|psi> and "
+                 "<psi|H|psi> of the actual MPS (dense) before/after, dense H_eff Hermitian, x^H H_eff x = <psi|H|psi>, x^H x = <psi|psi>, "
+                 "result = scipy expm(-i t H_eff) x, neighbours isometric, split drop = discarded weight <= threshold; tolerances "
+                 ">= 100x the clean-tree maxima over 6260 cases (CONS_TOL in the script)",
             trusted_base=["numpy/scipy dense linear algebra (scipy.linalg.expm) in the oracles",
                           "cited, not formalised: a consistent palindromic one-step method has even order (Hairer-Lubich-Wanner II.3); "
                           "projector-splitting exactness (Lubich-Oseledets-Vandereycken 2015); BUG first-order bound (Ceruti-Lubich-Walach 2021)"],
             assumptions=["the site of an update is the index of the MPO tensor object handed to it; the bond dimension the "
-                         "branch condition looked at is the one visible in the arguments of the first call of the visit"])
+                         "branch condition looked at is the one visible in the arguments of the first call of the visit",
+                         "conserve (xe05): Krylov exactness is judged only where |t|*|H_eff| <= 8 (25 Lanczos vectors suffice there); "
+                         "the dense H_eff above the code's DENSE_THRESHOLD is rebuilt with the code's own build_dense_heff_* for the same environments"])
